@@ -229,8 +229,8 @@ func runC01(r *engine.Run) {
 	// ---- the same frame value in its other Go forms: empty non-nil lists (FOpts length 0 and
 	// FRMPayload length 0 are inside the quantification; an empty list is what filtering a
 	// pending-command queue leaves behind) and payloads held as several items
-	spF := (&engine.Space{}).Dim("mtype", 4).Dim("fport{absent,0,1}", 3).Dim("foptslen{0,3}", 2).Dim("frmlen{0,5}", 2).Dim("form", 8)
-	r.PartDims("data/value-forms", append(spF.Desc(), "forms: FOpts [] | FRMPayload [] | both [] | FRMPayload in 2 items | FRMPayload with an empty item | FOpts in 2 items | FOpts [] via a re-sliced queue | nil lists (reference)"), spF.N(), func(c *engine.Case) {
+	spF := (&engine.Space{}).Dim("mtype", 4).Dim("fport{absent,0,1}", 3).Dim("foptslen{0,3}", 2).Dim("frmlen{0,5}", 2).Dim("form", 9)
+	r.PartDims("data/value-forms", append(spF.Desc(), "forms: FOpts [] | FRMPayload [] | both [] | FRMPayload in 2 items | FRMPayload with an empty item | FOpts in 2 items | FOpts [] via a re-sliced queue | nil lists (reference) | received FOpts and FRMPayload as windows into one buffer plus an added FOpts item (zero-copy forwarder)"), spF.N(), func(c *engine.Case) {
 		var ch [5]int
 		spF.Decode(c.Index, ch[:])
 		port := []int{-1, 0, 1}[ch[1]]
@@ -260,6 +260,7 @@ func runC01(r *engine.Run) {
 		mp := p.MACPayload.(*lorawan.MACPayload)
 		item := func(b []byte) lorawan.Payload { return &lorawan.DataPayload{Bytes: append([]byte(nil), b...)} }
 		na := func() { c.Outcome("value-forms/form-not-applicable") }
+		var arena, arenaBefore []byte
 		switch ch[4] {
 		case 0:
 			if foLen != 0 {
@@ -305,11 +306,26 @@ func runC01(r *engine.Run) {
 			queue := []lorawan.Payload{item([]byte{2})}
 			mp.FHDR.FOpts = queue[:0]
 		case 7:
+		case 8:
+			if foLen < 2 || len(f.FRM) == 0 {
+				na()
+				return
+			}
+			// a forwarder that adds a command to a received frame without copying it: the received FOpts
+			// and the FRMPayload are windows into the receive buffer (capacity up to its end, the payload
+			// right behind the FOpts), the added command is an item of its own
+			arena = append(append([]byte(nil), f.FOpts[:foLen-1]...), f.FRM...)
+			mp.FHDR.FOpts = []lorawan.Payload{&lorawan.DataPayload{Bytes: arena[0 : foLen-1]}, item(f.FOpts[foLen-1:])}
+			mp.FRMPayload = []lorawan.Payload{&lorawan.DataPayload{Bytes: arena[foLen-1:]}}
+			arenaBefore = append([]byte(nil), arena...)
 		}
 		p.MIC = lorawan.MIC{1, 2, 3, 4}
 		want := append(f.Msg(), 1, 2, 3, 4)
 		c.Eval()
 		wire, err := p.MarshalBinary()
+		if !bytes.Equal(arena, arenaBefore) {
+			c.Fail("data/value-forms/encoder-writes-into-the-frame", fmt.Sprintf("form %d: encoding changed the buffer the frame's fields are cut from: %x -> %x", ch[4], arenaBefore, arena), nil)
+		}
 		if err != nil {
 			c.Fail("data/value-forms/encoder-refuses-spec-valid-frame", fmt.Sprintf("form %d of frame %x refused: %v", ch[4], f.Msg(), err), nil)
 			return
@@ -334,12 +350,13 @@ func runC01(r *engine.Run) {
 	// ---- a proprietary command that is registered only after frames carrying its CID have been seen
 	// (a gateway forwards whatever it receives): once registered, a frame with the command round-trips
 	// as that command. The registry is process-global: one worker, reset before and after each case.
-	r.PartWorkers("data/proprietary-registered-later", []string{"cid{80,a7,ff}", "direction:2", "size{1,2,5}", "carrier{FOpts, port-0 FRMPayload}"}, 3*2*3*2, 1, func(c *engine.Case) {
+	r.PartWorkers("data/proprietary-registered-later", []string{"cid{80,a7,ff}", "direction:2", "size{1,2,5}", "carrier{FOpts, port-0 FRMPayload}", "the same CID in the other direction{not registered, registered before with another size, registered afterwards with another size}"}, 3*2*3*2*3, 1, func(c *engine.Case) {
 		i := c.Index
 		cid := []byte{0x80, 0xA7, 0xFF}[i%3]
 		uplink := (i/3)%2 == 1
 		size := []int{1, 2, 5}[(i/6)%3]
-		inFRM := i/18 == 1
+		inFRM := (i/18)%2 == 1
+		otherDir := int(i / 36)
 		lorawan.VerifRegistryReset()
 		defer lorawan.VerifRegistryReset()
 		c.Eval()
@@ -370,10 +387,16 @@ func runC01(r *engine.Run) {
 		raw := append(f.Msg(), 1, 2, 3, 4)
 		// 1. seen while the CID is unknown (whatever it decodes to; it must not panic)
 		decodeCmds(raw)
-		// 2. registered
+		// 2. registered (a size registered for the other direction is that direction's business)
+		if otherDir == 1 {
+			lorawan.RegisterProprietaryMACCommand(!uplink, lorawan.CID(cid), size+2)
+		}
 		if err := lorawan.RegisterProprietaryMACCommand(uplink, lorawan.CID(cid), size); err != nil {
 			c.Fail("data/proprietary-registered-later/registration-refused", fmt.Sprintf("RegisterProprietaryMACCommand(uplink=%v, %02x, %d): %v", uplink, cid, size, err), nil)
 			return
+		}
+		if otherDir == 2 {
+			lorawan.RegisterProprietaryMACCommand(!uplink, lorawan.CID(cid), size+2)
 		}
 		// 3. the frame built from the command values round-trips
 		var fo, fr []spec.Cmd
